@@ -33,7 +33,7 @@ FUNCS = {"ident": (1, [], "any"), "tag2": (2, [], "tup3"), "kw": (1, ["k", "j"],
 TWZ_BUILTINS = ("not_", "and_", "or_")
 OPS = {"_add": "+", "_sub": "-", "_mul": "*", "_lt": "<", "_le": "<=", "_gt": ">", "_ge": ">=", "_eq": "==",
        "_ne": "!=", "_floordiv": "//", "_mod": "%"}
-CONSTS = [1, -2, 0, True, False, None, "s", (1, 2), [3], 7, {"q": 1}, ""]
+CONSTS = [1, -2, 0, True, False, None, "s", (1, 2), [3], 7, {"q": 1}, "", 0, False, None]
 
 
 # ---------------------------------------------------------------------------------------------
@@ -110,11 +110,29 @@ class DefGen:
             return ["v", i, [["i", 1]]], "any"
         return ["v", i, []], k
 
+    def arg_indexed(self):
+        """an indexed part of a container-valued variable when there is one (key paths are where the bugs hide)"""
+        rng = self.rng
+        cands = [i for i, k in enumerate(self.kinds) if k in ("pair", "trip", "dict", "tup3", "tup4")]
+        if not cands or rng.random() < 0.3:
+            return self.arg()[0]
+        i = rng.choice(cands)
+        k = self.kinds[i]
+        if k == "pair":
+            return ["v", i, [["i", rng.randint(0, 1)]] + ([["i", 1]] if rng.random() < 0.5 else [])]
+        if k == "trip":
+            return ["v", i, rng.choice([[["i", 0]], [["i", 1], ["i", 0]], [["i", 2], ["s", "k"]], [["i", -1], ["s", "k"]]])]
+        if k == "dict":
+            return ["v", i, rng.choice([[["s", "a"]], [["s", "b"], ["i", 1]], [["s", "n"], ["i", 0]]])]
+        return ["v", i, [["i", rng.choice([1, 2])]]]
+
     def flag(self):
         rng = self.rng
         r = rng.random()
         if r < 0.2:
             return ["c", rng.choice([True, False, 0, 1, None, "", "x"])]
+        if r < 0.6:
+            return self.arg_indexed()
         return self.arg()[0]
 
     def stmt(self):
@@ -153,11 +171,11 @@ class DefGen:
             if m < 0.35:
                 args = args[:1]
             elif m < 0.6:
-                kwargs = [["b", args[1]]]
+                kwargs = [["b", self.arg_indexed() if rng.random() < 0.6 else args[1]]]
                 args = args[:1]
         for k in kws:
             if rng.random() < 0.5:
-                kwargs.append([k, self.arg()[0]])
+                kwargs.append([k, self.arg_indexed()])
         fl = self.flag() if (self.allow_flags and rng.random() < 0.3) else None
         unpack = None
         if f == "pair" and rng.random() < 0.5 and fl is None:
@@ -196,10 +214,27 @@ def gen_def(rng, name, defs, is_top, allow_flags=True):
             items.append(["k%d" % j if shape == "d" else None, a])
         if not is_top and any(a[0] == "c" for _k, a in items):
             return None
+    whole = None
+    dag_stmts = [j for j, s_ in enumerate(body) if s_["k"] == "dag"]
+    if dag_stmts and rng.random() < 0.25:
+        # `return inner(...)`-style: pass the callee's container on whole as this DAG's return value
+        j = rng.choice(dag_stmts)
+        callee = defs[body[j]["callee"]]
+        first = nparams
+        for s_ in body[:j]:
+            if s_["k"] == "dag":
+                first += len(defs[s_["callee"]]["ret"]["items"])
+            else:
+                first += s_.get("unpack") or 1
+        shape = callee["ret"]["shape"]
+        items = [[key, ["v", first + c, []]] for c, (key, _a) in enumerate(callee["ret"]["items"])]
+        whole = j
     uses_flags = any(s.get("flag") is not None for s in body) or any(
         s["k"] == "dag" and defs[s["callee"]]["uses_flags"] for s in body)
-    return dict(name=name, params=params, body=body, ret=dict(shape=shape, items=items), uses_flags=uses_flags,
-                nvars=len(g.kinds))
+    ret = dict(shape=shape, items=items)
+    if whole is not None:
+        ret["whole"] = whole
+    return dict(name=name, params=params, body=body, ret=ret, uses_flags=uses_flags, nvars=len(g.kinds))
 
 
 def gen_module(rng, nested=True, allow_flags=True, max_defs=3):
@@ -333,7 +368,9 @@ def def_source(d, defs, oracle):
             else:
                 lines.append("    v%d = %s(%s)" % (j, s["fn"], ", ".join(parts)))
     r = d["ret"]
-    if r["shape"] == "s":
+    if r.get("whole") is not None:
+        lines.append("    return _r%d" % r["whole"])
+    elif r["shape"] == "s":
         lines.append("    return %s" % sarg(r["items"][0][1], names))
     elif r["shape"] == "t":
         lines.append("    return (%s,)" % ", ".join(sarg(a, names) for _k, a in r["items"]))
@@ -522,3 +559,39 @@ def directed_modules():
                         ritems = [[None, ["v", first + c, []]] for c in range(k)] + [[None, ["v", first + k, []]]]
                         top = dict(name="main", params=[], body=obody, ret=dict(shape="t", items=ritems), uses_flags=f is not None)
                         yield dict(defs=[inner, top], args=[])
+
+
+def directed_passing_modules():
+    """Every way a value reaches a node inside a nested DAG (and at top level): positional / keyword x whole /
+    indexed / doubly indexed / unpacked component, as argument and as activation flag, for truthy and falsy elements."""
+    forms = [("whole", []), ("idx", [["i", 0]]), ("idx2", [["i", 1], ["i", 1]])]
+    for nested in (False, True):
+        for x in (3, 0, None, "", (1, 2)):
+            for fname, path in forms:
+                for how in ("pos", "kw", "flag", "unpack-pos", "unpack-kw", "unpack-flag"):
+                    # body (over parameter p0): v0 = pair(p0) -> (("L",p0),("R",p0)); consumer reads v0<path> or an unpacked part
+                    body = [dict(k="call", fn="pair", args=[["v", 0, []]], kwargs=[], flag=None,
+                                 unpack=2 if how.startswith("unpack") else None)]
+                    if how.startswith("unpack"):
+                        src = ["v", 2, [["i", 1]]] if fname != "whole" else ["v", 1, []]   # second component / its element
+                        nxt = 3
+                    else:
+                        src = ["v", 1, path]
+                        nxt = 2
+                    h = how.split("-")[-1]
+                    if h == "pos":
+                        body.append(dict(k="call", fn="kw", args=[src], kwargs=[], flag=None, unpack=None))
+                    elif h == "kw":
+                        body.append(dict(k="call", fn="kw", args=[["c", 1]], kwargs=[["k", src], ["j", src]], flag=None, unpack=None))
+                    else:
+                        body.append(dict(k="call", fn="kw", args=[["c", 1]], kwargs=[], flag=src, unpack=None))
+                    ret = dict(shape="t", items=[[None, ["v", nxt, []]], [None, ["v", 0, []]]])
+                    if nested:
+                        inner = dict(name="d0", params=[dict(name="p0")], body=body, ret=ret, uses_flags=(h == "flag"))
+                        top = dict(name="main", params=[], uses_flags=(h == "flag"),
+                                   body=[dict(k="dag", callee=0, args=[["c", x]], flag=None)],
+                                   ret=dict(shape="l", items=[[None, ["v", 0, []]], [None, ["v", 1, []]]]))
+                        yield dict(defs=[inner, top], args=[])
+                    else:
+                        top = dict(name="main", params=[dict(name="p0")], body=body, ret=ret, uses_flags=(h == "flag"))
+                        yield dict(defs=[top], args=[x])
